@@ -245,3 +245,206 @@ Proof.
           |[(i0 & st0 & n0 & ok0 & r0 & Q & _)|(st0 & r0 & Q & _)]]]]]; try discriminate Q;
           injection Q as -> _; congruence.
 Qed.
+
+(* ---- the plan's own status write ---- *)
+Lemma Rp_plan_write sh s s' m stt r :
+  Rp sh s m -> inv sh s' -> p_write sh s stt r = Some s ->
+  upd_spec s s' (EvWrite OPlan stt 0 false r) (s_g s) (s_b s) false -> s_reason s' = r ->
+  exists m', mstep sh SPlan m (EvWrite OPlan stt 0 false r) = Some m' /\ Rp sh s' m'.
+Proof.
+  intros [I (C & S & T)] I' Hw U Hr. destruct I as [_ Y]. destruct U as [Ui Up Ug Ut Uc Ub Ul Uf].
+  cbn [ev_img] in Ui. destruct C as [C1 C2 C3].
+  set (c := {| c_st := stt; c_n := 0; c_ok := false |}) in *.
+  assert (Tr : forall m', (forall g, m_track m' g = m_track m g) -> tracks_rel sh SPlan (s_img s') (s_g s') m').
+  { intros m' Hm. rewrite Ug, Ui. eapply tracks_rel_frame; [exact T|intros g _; apply Hm|].
+    intros g j _. apply ist_iset_other. discriminate. }
+  assert (Sync : forall o, iget (img_after (m_img m) OPlan c) o = iget (s_img s') o).
+  { intro o. rewrite Ui. now apply img_sync. }
+  assert (Rl : released s' = released s) by now apply released_same.
+  assert (Cases : (s_ph s = PStart /\ stt = Running /\ r = FRUnknown)
+                  \/ (s_ph s = PEnd /\ is_terminal stt = true /\ is_terminal (ist (s_img s) OPlan) = false)).
+  { unfold p_write in Hw. destruct (s_ph s); try discriminate Hw.
+    - left. destruct (status_eqb stt Running && reason_eqb r FRUnknown) eqn:G; [|discriminate].
+      apply andb_true_iff in G as [G1 G2]. apply status_eqb_eq in G1. apply reason_eqb_eq in G2. auto.
+    - right. destruct (is_terminal stt && negb (is_terminal (ist (s_img s) OPlan))
+                && status_eqb stt (fst (final sh (ist (s_img s)))) && reason_eqb r (snd (final sh (ist (s_img s))))) eqn:G;
+        [|discriminate].
+      apply andb_true_iff in G as [G _]. apply andb_true_iff in G as [G _]. apply andb_true_iff in G as [G1 G2].
+      apply negb_true_iff in G2. auto. }
+  unfold mstep. cbn [mstep_d]. fold c.
+  destruct (cell_eqb (iget (m_img m) OPlan) c) eqn:Rep.
+  - (* a repeated write: only a second Running write in PStart *)
+    exists m. split; [reflexivity|]. split; [exact I'|].
+    assert (Eq : iget (s_img s) OPlan = c) by (rewrite <- C1; now apply cell_eqb_eq).
+    destruct Cases as [(Ph & -> & ->)|(Ph & Tm & Nt)].
+    + split; [|split].
+      * constructor; [|rewrite C2, Hr; now apply (y_r0 _ Y)|now rewrite Rl].
+        intro o. rewrite <- Sync. unfold img_after. now rewrite Rep.
+      * unfold started_rel in *. rewrite S, Ui. cbn [scope_obj]. rewrite ist_iset_same. unfold ist. rewrite Eq. reflexivity.
+      * now apply Tr.
+    + exfalso. unfold ist in Nt. rewrite Eq in Nt. simpl in Nt. congruence.
+  - assert (Im : forall o, iget (iset (m_img m) OPlan c) o = iget (s_img s') o).
+    { intro o. rewrite <- Sync. unfold img_after. now rewrite Rep. }
+    destruct Cases as [(Ph & -> & ->)|(Ph & Tm & Nt)].
+    + simpl. eexists. split; [reflexivity|]. split; [exact I'|]. split; [|split].
+      * constructor; simpl; auto. now rewrite Rl.
+      * unfold started_rel. simpl. rewrite Ui, ist_iset_same. reflexivity.
+      * apply Tr. now intros [].
+    + assert (Nr : status_eqb stt Running = false) by (destruct stt; try discriminate Tm; reflexivity).
+      rewrite Nr. eexists. split; [reflexivity|]. split; [exact I'|]. split; [|split].
+      * constructor; simpl; auto. now rewrite Rl.
+      * unfold started_rel in *. simpl. rewrite S, Ui, ist_iset_same. cbn [scope_obj].
+        assert (N1 : ist (s_img s) OPlan <> NotStarted) by (apply (y_started _ Y); rewrite Ph; discriminate).
+        destruct (ist (s_img s) OPlan); try (now elim N1); destruct stt; try discriminate Tm; reflexivity.
+      * apply Tr. now intros [].
+Qed.
+
+(* ---- Wait returns: every release clause of the plan scope holds ---- *)
+Lemma plan_release_code sh s m fin :
+  inv sh s -> link_plan sh s m -> s_ph s = PEnd -> is_terminal (ist (s_img s) OPlan) = true ->
+  image_agrees (all_objs sh) (s_img s) (s_reason s) fin = true ->
+  release_code sh fin SPlan m = 0.
+Proof.
+  intros [[P X] Y] (C & S & T) Ph Tm Ag. assert (En : ended s) by now left.
+  set (f := ist (s_img s)).
+  (* the tracked groups are idle: their tracks reflect the durable statuses *)
+  assert (Tk : forall g, tracked g = true ->
+            k_open (m_track m g) = false /\ k_failed (m_track m g) = status_eqb (f (OChecks SPlan g)) Failed
+            /\ k_runs (m_track m g) = g_runs (tget (s_g s) g)
+            /\ (1 <= g_runs (tget (s_g s) g) -> k_done (m_track m g) = true)).
+  { intros g Tg. eapply idle_track; [eapply ended_idle; eauto|apply T; auto|apply (pi_img _ _ P)]. }
+  destruct (Tk GBypass eq_refl) as (Ob & Fb & Rb & Db). destruct (Tk GCont eq_refl) as (Oc & Fc & _ & _).
+  destruct (Tk GDeferred eq_refl) as (Od & Fd & Rd & _). cbn [m_track tget] in *.
+  (* absent groups are never Failed *)
+  assert (Abs : forall g, ppres sh g = false -> f (OChecks SPlan g) = NotStarted).
+  { intros g Pg. destruct (pi_tab _ _ P) as [A _]. pose proof (pi_img _ _ P g) as Gi. rewrite (A g Pg) in Gi. exact Gi. }
+  assert (Cf : k_failed (m_cont m) = gbad sh f GCont).
+  { rewrite Fc. unfold gbad. destruct (ppres sh GCont) eqn:E; auto. now rewrite (Abs _ E). }
+  assert (Df : k_failed (m_def m) = gbad sh f GDeferred).
+  { rewrite Fd. unfold gbad. destruct (ppres sh GDeferred) eqn:E; auto. now rewrite (Abs _ E). }
+  (* the released plan agrees with the image *)
+  assert (Ar : im_reason fin = s_reason s) by (eapply agrees_reason; eauto).
+  assert (Ap : fin_st fin OPlan = f OPlan) by (eapply agrees_status; eauto using in_all_plan).
+  assert (Agp : forall g, gbad sh (fin_st fin) g = gbad sh f g).
+  { intro g. unfold gbad. destruct (ppres sh g) eqn:E; auto. simpl.
+    now rewrite (agrees_status _ _ _ _ _ Ag (in_all_group _ _ E)). }
+  assert (Stg : stage_reason sh fin = stage_of sh f).
+  { rewrite stage_reason_of. apply stage_of_ext.
+    - intros g Pg. eapply agrees_status; eauto using in_all_group.
+    - intros b Lb. eapply agrees_status; eauto using in_all_block. }
+  assert (Gf : forall g, grp_failed sh fin SPlan g = gbad sh f g).
+  { intro g. rewrite <- Agp. unfold grp_failed, gbad, failed_in_fin. now rewrite has_ppres. }
+  pose proof (pi_final _ _ P En Tm) as Fs. pose proof (x_reason _ _ X En Tm) as Fr.
+  assert (St : m_started m = true).
+  { rewrite S. cbn [scope_obj]. destruct (ist (s_img s) OPlan); try discriminate Tm; reflexivity. }
+  unfold release_code. cbn [scope_obj]. rewrite Ob, Oc, Od. cbn [orb]. rewrite has_ppres, Ap, Cf, Df, !Gf, (c_reason _ _ C), Ar.
+  fold f in Fs, Fr. rewrite Fs, Fr, Stg.
+  destruct (pi_tab _ _ P) as [A Tb]. rewrite Ph in Tb. cbn [pstage] in Tb. cbn zeta in Tb.
+  destruct Tb as [(Eb & Ep & Ec & Eo & Ed & Et)|(Nb & _)].
+  - (* the plan was bypassed *)
+    assert (Tkn : ptaken s) by exact Eb. pose proof (final_taken_full _ _ P Tkn) as Ft. fold f in Ft. rewrite Ft. cbn [fst snd].
+    assert (Hb : ppres sh GBypass = true).
+    { destruct (ppres sh GBypass) eqn:E; auto. specialize (A GBypass E). cbn [tget] in A. unfold g0 in A. congruence. }
+    assert (Z1 : gbad sh f GCont = false).
+    { unfold gbad. destruct (ppres sh GCont); auto. pose proof (pi_img _ _ P GCont) as Gi. cbn [tget] in Gi. rewrite Ec in Gi.
+      simpl in Gi. unfold f. now rewrite Gi. }
+    assert (Z2 : gbad sh f GDeferred = false).
+    { unfold gbad. destruct (ppres sh GDeferred); auto. pose proof (pi_img _ _ P GDeferred) as Gi. cbn [tget] in Gi. rewrite Ed in Gi.
+      simpl in Gi. unfold f. now rewrite Gi. }
+    assert (Ne : entered sh SPlan m = false).
+    { unfold entered. rewrite has_ppres, Hb. cbn [negb orb].
+      pose proof (pi_img _ _ P GBypass) as Gi. cbn [tget] in Gi. rewrite Eb in Gi. simpl in Gi.
+      rewrite Fb. unfold f. rewrite Gi. simpl. now rewrite !andb_false_r. }
+    rewrite Ne, Rd, Ed, Z1, Z2. simpl. destruct (ppres sh GDeferred); reflexivity.
+  - (* the plan was entered *)
+    assert (Nt : ~ ptaken s).
+    { intro Q. unfold ptaken in Q. unfold not_taken in Nb. destruct (ppres sh GBypass); unfold g0 in *; congruence. }
+    destruct (end_groups _ _ P X En Nt) as (_ & _ & _ & _ & Hd).
+    pose proof (final_is_stage _ _ P X En Nt) as Fi. fold f in Fi. rewrite Fi. cbn [fst snd].
+    assert (Ent : entered sh SPlan m = true).
+    { unfold entered. rewrite St, has_ppres. cbn [andb]. unfold not_taken in Nb. destruct (ppres sh GBypass); [|reflexivity].
+      cbn [negb orb]. rewrite Db by (rewrite Nb; simpl; lia).
+      pose proof (pi_img _ _ P GBypass) as Gi. cbn [tget] in Gi. rewrite Nb in Gi. simpl in Gi.
+      rewrite Fb. unfold f. now rewrite Gi. }
+    rewrite Ent.
+    assert (C7 : ppres sh GDeferred && negb (Nat.eqb (k_runs (m_def m)) 1) = false).
+    { destruct (ppres sh GDeferred) eqn:E; auto. destruct (Hd eq_refl) as [v Ev]. rewrite Rd, Ev. reflexivity. }
+    rewrite C7.
+    assert (C10 : forall g, In g [GPre; GCont; GPost; GDeferred] -> gbad sh f g = true ->
+                  status_eqb (if reason_eqb (stage_of sh f) FRUnknown then Completed else Failed) Failed = true).
+    { intros g Ig B. pose proof (stage_of_bad _ _ _ Ig B) as N.
+      destruct (reason_eqb (stage_of sh f) FRUnknown) eqn:E; [apply reason_eqb_eq in E; now elim N|reflexivity]. }
+    destruct (gbad sh f GCont) eqn:B2.
+    + rewrite (C10 GCont) by (simpl; auto). cbn [andb negb orb].
+      destruct (gbad sh f GDeferred) eqn:B5; cbn [andb negb orb];
+        rewrite (proj2 (reason_eqb_eq _ _) eq_refl); cbn [negb];
+        [|destruct (reason_eqb (stage_of sh f) FRDeferredCheck) eqn:E;
+          [apply reason_eqb_eq in E; apply stage_of_def in E; congruence|]];
+        rewrite ?andb_false_r; reflexivity.
+    + cbn [andb negb orb].
+      assert (N13 : reason_eqb (stage_of sh f) FRContCheck = false).
+      { destruct (reason_eqb (stage_of sh f) FRContCheck) eqn:E; auto. apply reason_eqb_eq in E. apply stage_of_cont in E. congruence. }
+      rewrite N13. cbn [andb orb].
+      destruct (gbad sh f GDeferred) eqn:B5; cbn [andb negb orb].
+      * rewrite (C10 GDeferred) by (simpl; auto). cbn [negb]. rewrite (proj2 (reason_eqb_eq _ _) eq_refl). cbn [negb].
+        rewrite ?andb_false_r. reflexivity.
+      * assert (N14 : reason_eqb (stage_of sh f) FRDeferredCheck = false).
+        { destruct (reason_eqb (stage_of sh f) FRDeferredCheck) eqn:E; auto. apply reason_eqb_eq in E. apply stage_of_def in E. congruence. }
+        rewrite N14, (proj2 (reason_eqb_eq _ _) eq_refl). reflexivity.
+Qed.
+
+Lemma Rp_handle sh s m e s' :
+  Rp sh s m -> handle sh s e = Some s' -> exists m', mstep sh SPlan m e = Some m' /\ Rp sh s' m'.
+Proof.
+  intros R H. pose proof R as [I L]. pose proof (inv_handle _ _ _ _ I H) as I'.
+  destruct (handle_cases _ _ _ _ H) as
+    [g op x owed Hc Ha _ U Er|b bs g op x owed Hc Cb Ha _ U Er|b bs q sq sq' owed Cb Hq Ht U Er
+    |b bs stt r -> Cb Hw U Er|stt r -> Hw U Hr|a l -> Hl E1 E2 E3 E4 E5 E6 _ _ Er|snap -> ->
+    |fin -> Ph Tm Ag E1 E2 E3 E4 E5 E6 _ Er].
+  - eapply Rp_plan_chk; eauto.
+  - destruct (cur_block_spec _ _ _ _ Cb) as (Ph & _ & _). eapply Rp_in_block; eauto. eapply chk_op_block; eauto.
+  - destruct (cur_block_spec _ _ _ _ Cb) as (Ph & _ & _). eapply Rp_in_block; eauto. eapply seq_trans_block; eauto.
+  - destruct (cur_block_spec _ _ _ _ Cb) as (Ph & _ & _). eapply Rp_in_block; eauto. reflexivity.
+  - eapply Rp_plan_write; eauto.
+  - (* the late End of a timed-out attempt *)
+    exists m. split; [unfold mstep; cbn [mstep_d is_overrun negb]; now rewrite andb_false_r|].
+    split; [exact I'|]. destruct L as (C & S & T). destruct C as [C1 C2 C3].
+    split; [|split].
+    + constructor; rewrite ?E1, ?Er; auto. now rewrite (released_same s s').
+    + unfold started_rel. now rewrite E1.
+    + now rewrite E1, E3.
+  - exists m. split; [reflexivity|exact R].
+  - (* Wait returns *)
+    destruct L as (C & S & T). pose proof C as [C1 C2 C3].
+    assert (Lv : m_rel m = false) by (rewrite C3; apply not_released; rewrite Ph; discriminate).
+    exists (with_rel m). split.
+    + unfold mstep. cbn [mstep_d]. rewrite Lv.
+      now rewrite (plan_release_code sh s m fin I (conj C (conj S T)) Ph Tm Ag).
+    + split; [exact I'|]. split; [|split].
+      * constructor; simpl; rewrite ?E1, ?Er; auto. unfold released. now rewrite E2.
+      * unfold started_rel. simpl. now rewrite E1.
+      * rewrite E1, E3. intros g Tg. specialize (T g Tg). now destruct g.
+Qed.
+
+Lemma link_plan_init sh : link_plan sh init (m_init sh SPlan).
+Proof.
+  split; [|split].
+  - constructor; reflexivity.
+  - reflexivity.
+  - intros g Tg. destruct g; try discriminate Tg; simpl; apply grel_init; intros i _; discriminate.
+Qed.
+
+Lemma mfold_mrun sh sc m tr : mfold sh sc m tr = mrun mst (mstep sh sc) m tr.
+Proof. revert m; induction tr as [|e tr IH]; intro m; simpl; auto. destruct (mstep sh sc m e); auto. Qed.
+
+(* the plan scope: every accepted trace satisfies the monitor *)
+Theorem plan_scope_holds sh tr s :
+  run sh init tr = Some s -> exists m, mfold sh SPlan (m_init sh SPlan) tr = Some m /\ Rp sh s m.
+Proof.
+  intro H. rewrite mfold_mrun.
+  apply (product_run mst (mstep sh SPlan) sh (Rp sh)) with (s := init); auto.
+  - intros s0 m s1. apply Rp_eps.
+  - intros s0 m e s'. apply Rp_handle.
+  - intros s0 m e R St. exists m. split; [|exact R]. destruct R as [_ (C & _)]. eapply stutter_step; eauto.
+  - split; [|apply link_plan_init]. apply (inv_reach sh []). reflexivity.
+Qed.
